@@ -16,6 +16,7 @@ The thorough tier repeats a sample under valgrind memcheck on the release build.
 import glob
 import os
 import re
+import struct
 import signal
 import subprocess
 import time
@@ -39,11 +40,12 @@ def seeds(ctx, rng):
         kw = {"split": 300, "stored": False, "content_checksum": True} if c == "lz4" else {}
         out.append(("text." + c, "t.log." + c, gen.contain(text, c, **kw)))
     out.append(("text.tar", "t.tar", gen.tar_bytes([("d/t.log", text, 1_600_000_000), ("d/u.log", text, 1_600_000_000)])))
-    for ln in ("Fs_Linux_x86_Utmpx", "Fs_Linux_x86_Lastlog", "Fs_Linux_x86_Acct_v3", "Fs_Netbsd_x8664_Utmp", "Fs_Freebsd_x8664_Utmpx", "Fs_Openbsd_x86_Lastlog"):
+    main6 = ("Fs_Linux_x86_Utmpx", "Fs_Linux_x86_Lastlog", "Fs_Linux_x86_Acct_v3", "Fs_Netbsd_x8664_Utmp", "Fs_Freebsd_x8664_Utmpx", "Fs_Openbsd_x86_Lastlog")
+    for ln in main6 + tuple(sorted(n for n, l in fsgen.LAYOUTS.items() if n not in main6 and getattr(l, "selectable", True))):
         lay = fsgen.LAYOUTS[ln]
         recs = [fsgen.make_record(lay, i, 1_690_000_000 + 10 * i, usec=i)[0] for i in range(4)]
         data = fsgen.build_file(lay, recs)
-        out.append(("fixedstruct:" + ln, lay.filename, data))
+        out.append((("fixedstruct:" if ln in main6 else "fixedstruct-fields-only:") + ln, lay.filename, data))
         if ln in ("Fs_Linux_x86_Utmpx", "Fs_Linux_x86_Lastlog"):
             out.append(("fixedstruct.gz:" + ln, lay.filename + ".gz", gen.gz_bytes(data)))
             out.append(("fixedstruct.tar:" + ln, "fs.tar", gen.tar_bytes([("var/log/" + lay.filename, data, 1_600_000_000)])))
@@ -98,6 +100,27 @@ def faults(ctx, rng, kind, data, budget):
             out.append(("printable-bytes", bytes(rng.choice(b"abcdefghij0123456789 :-") for _ in range(ln))))
     rng.shuffle(out)
     out = out[:budget]
+    if kind.startswith("fixedstruct-fields-only:"):
+        out = []
+    if kind.startswith("fixedstruct:") or kind.startswith("fixedstruct-fields-only:"):
+        # damaged numeric fields: every integer field of the second record set to values around table sizes, sign and width
+        # limits (ut_type indexes a 12-entry name table, ac_flag is a bit set, time values feed datetime conversion)
+        lay = fsgen.LAYOUTS[kind.split(":")[1]]
+        fmt = {"i8": "b", "u8": "B", "i16": "h", "u16": "H", "comp_t": "H", "i32": "i", "u32": "I", "i64": "q", "u64": "Q"}
+        vals = list(range(-2, 18)) + [31, 32, 33, 63, 64, 127, 128, 129, 255, 256, 257, 32767, 32768, 65535, 65536, -128, -129, -32768, -32769,
+                                      2**31 - 1, 2**31, 2**32 - 1, 2**32, -2**31, 2**63 - 1, -2**63, 2**64 - 1]
+        for f in lay.fields:
+            if f.kind not in fmt:
+                continue
+            bits = 8 * f.size
+            signed = fmt[f.kind].islower()
+            lo, hi = (-(1 << (bits - 1)), (1 << (bits - 1)) - 1) if signed else (0, (1 << bits) - 1)
+            for v in vals:
+                if lo <= v <= hi:
+                    b = bytearray(data)
+                    o = lay.size + f.offset
+                    b[o:o + f.size] = struct.pack("<" + fmt[f.kind], v)
+                    out.append(("field-value:%s" % f.name, bytes(b)))
     # gzip: several members in one file (what `cat a.gz b.gz` or `gzip -c x >> a.gz` produce), trailing garbage and a trailer
     # whose ISIZE disagrees with the stream; always included
     if kind.startswith("text.gz") or kind.startswith("fixedstruct.gz"):
